@@ -17,6 +17,8 @@ use in_toto::models::{LayoutMetadataBuilder, LinkMetadataBuilder, Metablock, Met
 use serde_json::json;
 use std::collections::{BTreeMap, HashMap};
 
+thread_local! { static SETTER_ORDER_BAD: std::cell::RefCell<Vec<String>> = std::cell::RefCell::new(vec![]); }
+
 struct Rng(u64);
 impl Rng {
     fn next(&mut self) -> u64 { let mut x = self.0; x ^= x << 13; x ^= x >> 7; x ^= x << 17; self.0 = x; x }
@@ -86,7 +88,13 @@ fn gen_link(rng: &mut Rng) -> MetadataWrapper {
     if rng.chance(70) { bp = bp.set_stderr(text(rng)); }
     if rng.chance(20) { bp = bp.set_other_field(text(rng), text(rng)); }
     let env = if rng.chance(50) { None } else { let n = rng.below(3) as usize; Some((0..n).map(|_| (text(rng), text(rng))).collect::<BTreeMap<_, _>>()) };
-    MetadataWrapper::Link(LinkMetadataBuilder::new().name(text(rng)).materials(artifacts_map(rng)).products(artifacts_map(rng)).env(env).command(command(rng)).byproducts(bp).build().unwrap())
+    let (name, mats, prods, cmd_) = (text(rng), artifacts_map(rng), artifacts_map(rng), command(rng));
+    // the builder's setters are independent: every order of calling them gives the same link
+    let a = LinkMetadataBuilder::new().name(name.clone()).materials(mats.clone()).products(prods.clone()).env(env.clone()).command(cmd_.clone()).byproducts(bp.clone()).build().unwrap();
+    let b = LinkMetadataBuilder::new().byproducts(bp.clone()).command(cmd_.clone()).env(env.clone()).products(prods.clone()).materials(mats.clone()).name(name.clone()).build().unwrap();
+    let c = LinkMetadataBuilder::new().command(cmd_.clone()).name(name.clone()).byproducts(bp.clone()).materials(mats.clone()).env(env.clone()).products(prods.clone()).build().unwrap();
+    if a != b || a != c { SETTER_ORDER_BAD.with(|x| { let mut v = x.borrow_mut(); if v.len() < 3 { v.push(format!("command {:?} byproducts {:?}: the order of the builder calls changes the link", cmd_, bp)); } }); }
+    MetadataWrapper::Link(a)
 }
 
 pub fn run(r: &mut Report) {
@@ -124,6 +132,41 @@ pub fn run(r: &mut Report) {
             if !ok && wire_bad.len() < 4 {
                 wire_bad.push(format!("doc {}: canonical bytes {} read back typed={:?} guessed={:?} wrong-type={:?}", i, String::from_utf8_lossy(&bytes).chars().take(160).collect::<String>(),
                     typed.as_ref().map(|x| x.as_ref().map(|v| *v == md).map_err(|e| e.to_string())), guessed.as_ref().map(|x| x.as_ref().map(|v| *v == md).map_err(|e| e.to_string())), wrong.as_ref().map(|x| x.as_ref().map(|v| *v == md).map_err(|e| e.to_string().chars().take(60).collect::<String>()))));
+            }
+        }
+        // the builder entry point that starts from serialised metadata: whatever the spelling of the input (compact, pretty, members in
+        // another order), the block it signs is the block `Metablock::new` signs (same deterministic ed25519 signature, same metadata)
+        if i % 5 == 0 {
+            if let Ok(v) = serde_json::to_value(&md) {
+                let spellings: Vec<Vec<u8>> = vec![serde_json::to_vec(&v).unwrap_or_default(), serde_json::to_vec_pretty(&v).unwrap_or_default(), bytes.clone(),
+                    { let mut t = serde_json::to_string_pretty(&v).unwrap_or_default(); t = t.replace("\n", "\r\n  "); t.into_bytes() }];
+                let direct = no_panic(|| Metablock::new(md.clone(), &[&signer])).ok().and_then(|x| x.ok());
+                for (k, raw) in spellings.iter().enumerate() {
+                    let built = no_panic(|| in_toto::models::MetablockBuilder::from_raw_metadata(raw).and_then(|b| b.sign(&[&signer])).map(|b| b.build()));
+                    let ok = match (&built, &direct) { (Ok(Ok(b)), Some(d)) => b.metadata == md && serde_json::to_value(&b.signatures).ok() == serde_json::to_value(&d.signatures).ok()
+                        && matches!(no_panic(|| b.verify(1, [signer.public()])), Ok(Ok(_))), _ => false };
+                    if !ok && wire_bad.len() < 4 { wire_bad.push(format!("doc {}: from_raw_metadata(spelling {}) does not give the block Metablock::new gives: {:?}", i, k,
+                        built.as_ref().map(|x| x.as_ref().map(|b| (b.metadata == md, b.verify(1, [signer.public()]).is_ok())).map_err(|e| e.to_string())))); }
+                }
+            }
+        }
+        // in-memory edits through the public fields: a key filed in a layout's table under an id that is not its own, a step's key list
+        // reordered or doubled - each gives a different value, so different signed bytes and no signature transfer
+        if let MetadataWrapper::Layout(l) = &md {
+            let mut edits: Vec<(&str, MetadataWrapper)> = vec![];
+            { let mut l2 = l.clone(); let foreign = pool[0].key_id().clone(); let k = pool[1].public().clone();
+              if foreign != *k.key_id() && !l2.keys.contains_key(&foreign) { l2.keys.insert(foreign, k); edits.push(("a key filed under a foreign id", MetadataWrapper::Layout(l2))); } }
+            if let Some(st) = l.steps.first() { if st.pub_keys.len() >= 2 { let mut l2 = l.clone(); l2.steps[0].pub_keys.reverse(); if l2 != *l { edits.push(("first step's key list reversed", MetadataWrapper::Layout(l2))); } }
+                if !st.pub_keys.is_empty() { let mut l2 = l.clone(); let d = l2.steps[0].pub_keys[0].clone(); l2.steps[0].pub_keys.push(d); edits.push(("first step's first key listed twice", MetadataWrapper::Layout(l2))); } }
+            if let Ok(Ok(orig)) = no_panic(|| Metablock::new(md.clone(), &[&signer])) {
+                for (what, e) in edits {
+                    if e == md { continue; }
+                    neighbours += 1;
+                    let same_bytes = matches!(no_panic(|| e.to_bytes()), Ok(Ok(b)) if b == bytes);
+                    let moved = Metablock { signatures: orig.signatures.clone(), metadata: e };
+                    let transfers = matches!(no_panic(|| moved.verify(1, [signer.public()])), Ok(Ok(_)));
+                    if (same_bytes || transfers) && inj_bad.len() < 4 { inj_bad.push(format!("in-memory edit ({}) of doc {}: same signed bytes = {}, signature transfers = {}", what, i, same_bytes, transfers)); }
+                }
             }
         }
         let own_sigs = match no_panic(|| Metablock::new(md.clone(), &[&signer])) { Ok(Ok(m)) => Some(m.signatures), _ => None };
@@ -221,6 +264,8 @@ pub fn run(r: &mut Report) {
         }
         r.case("key-descriptions-injective", json!({"keys": keys.len()}), "different (material, scheme) pairs: different JSON, id and layout bytes", format!("{:?}", bad), bad.is_empty() && keys.len() >= 20);
     }
+    let setter_bad: Vec<String> = SETTER_ORDER_BAD.with(|x| x.borrow().clone());
+    r.case("generated-builder-setter-order", json!({"links": "every generated link, three orders of the six setters"}), "the same link whatever the order", format!("{:?}", setter_bad), setter_bad.is_empty());
     r.case("generated-signed-bytes-deterministic", json!({"documents": n_docs, "seed": seed}), "the same bytes every time", format!("{:?}", det_bad), det_bad.is_empty());
     r.case("generated-signed-bytes-injective", json!({"documents": n_docs, "distinct_values": distinct, "edited_neighbours_compared": neighbours, "seed": seed}), "different values never share signed bytes", format!("{:?}", inj_bad), inj_bad.is_empty() && distinct > n_docs / 4 && neighbours > n_docs / 2);
     r.case("generated-wire-identity", json!({"documents": (n_docs + 2) / 3, "layouts": 4, "seed": seed}), "read back equal and verified, for every writer", format!("{:?}", wire_bad), wire_bad.is_empty());
